@@ -183,9 +183,22 @@ inductive Exec (c : Config) : List Label → State → Prop where
 
 def Reach (c : Config) (s : State) : Prop := ∃ tr, Exec c tr s
 
+/-- number of tasks with index below `k` whose test is running -/
+def cnt (f : Nat → St) : Nat → Nat
+  | 0 => 0
+  | k + 1 => cnt f k + (if (f k).isRunning then 1 else 0)
+
 /-- number of tests running -/
-def countRunning (c : Config) (s : State) : Nat :=
-  ((List.range c.n).filter (fun j => (s.st j).isRunning)).length
+def countRunning (c : Config) (s : State) : Nat := cnt s.st c.n
+
+/-- how often the test of runner `i` was started in a label sequence -/
+def startCount (i : Nat) (tr : List Label) : Nat := (tr.filter (fun l => decide (l = .acquireStart i))).length
+
+/-- the results processed in a label sequence, in order -/
+def resultsOf : List Label → List TestResult
+  | [] => []
+  | .finish _ r :: tr => r :: resultsOf tr
+  | _ :: tr => resultsOf tr
 
 /-! ### configuration built by `doit` / `SingleTestRunner.__init__` -/
 
@@ -225,6 +238,16 @@ def skipAll (c : Config) (s : State) : Nat → State
     | some s2 => s2
     | none => s1
 
+/-- perform every enabled `vanish` for tasks below `k` (silent: a cancelled running task that ends by
+`CancelledError` reports nothing) -/
+def vanishAll (c : Config) (s : State) : Nat → State
+  | 0 => s
+  | k + 1 =>
+    let s1 := vanishAll c s k
+    match step c s1 (.vanish k) with
+    | some s2 => s2
+    | none => s1
+
 /-- advance the main coroutine (and silent skips) until task `i` exists; fuel bounds the main steps -/
 def advanceUntilLaunched (c : Config) (i : Nat) : Nat → State → Option State
   | 0, s => if s.st i = .notLaunched then none else some s
@@ -259,11 +282,12 @@ def replayEvent (c : Config) (s : State) : Event → Except ReplayErr State
     | some s1 => .ok s1
     | none => .error .resultNotEnabled
 
-/-- run main steps and silent skips to completion -/
+/-- run main steps and silent task steps to completion (only used once the log is exhausted: a
+cancel-requested test that has not reported by then never will) -/
 def drain (c : Config) : Nat → State → State
   | 0, s => s
   | fuel + 1, s =>
-    let s1 := skipAll c s c.n
+    let s1 := skipAll c (vanishAll c s c.n) c.n
     match mainStep c s1 with
     | some s2 => drain c fuel s2
     | none => s1
